@@ -819,6 +819,95 @@ def _exit_sites():
 
 out["exit_sites"] = _exit_sites()
 
+# ---------------------------------------------------------------- 3.9 / 3.10: exit sites observed by running the shapes with recording managers
+def _exit_sites_observed():
+    """run each shape of EXIT_SHAPES with context managers that record, from inside __exit__ / __aexit__, the f_lasti of the frame
+    that is leaving the block (and, for async exits, the f_lasti at which the coroutine is suspended), together with the handler
+    of *that* manager's block (the target of the SETUP_WITH / SETUP_ASYNC_WITH that entered it).  The interpreter itself says which
+    block an exit belongs to; nothing of the library is involved"""
+    if sys.version_info >= (3, 11):
+        return None
+    import itertools
+    res = {}
+
+    class Suspend:
+        def __await__(self):
+            yield self
+
+    for name, src in EXIT_SHAPES.items():
+        log = []
+        suspended = []
+
+        class CM:
+            def __enter__(self):
+                self.enter_lasti = sys._getframe(1).f_lasti
+                return self
+
+            def __exit__(self, t, v, tb):
+                fr = sys._getframe(1)
+                if t is None:
+                    log.append(["sync", self.enter_lasti, fr.f_lasti])
+                return False
+
+            async def __aenter__(self):
+                self.enter_lasti = sys._getframe(1).f_lasti
+                return self
+
+            async def __aexit__(self, t, v, tb):
+                fr = sys._getframe(1)
+                if t is None:
+                    log.append(["async-running", self.enter_lasti, fr.f_lasti])
+                    suspended.append(self.enter_lasti)
+                    await Suspend()
+                return False
+
+        ns = {"g": lambda *a: 0, "h": lambda *a: 0}
+        exec(compile(src, "<probe>", "exec"), ns)
+        f = ns["f"]
+        code = f.__code__
+        insns = list(dis.get_instructions(code))
+        by_off = {i.offset: k for k, i in enumerate(insns)}
+        params = code.co_varnames[:code.co_argcount]
+        choices = {"cm": [None], "a": [None], "b": [None], "it": [(0,), (1,), (0, 1), (1, 2), (2, 1)], "c": [0, 1], "n": [0, 2]}
+        is_coro = bool(code.co_flags & 0x80)
+        for combo in itertools.product(*[choices.get(p_, [0]) for p_ in params]):
+            kw = {p_: (CM() if p_ in ("cm", "a", "b") else v_) for p_, v_ in zip(params, combo)}
+            try:
+                if not is_coro:
+                    f(**kw)
+                else:
+                    co = f(**kw)
+                    try:
+                        while True:
+                            co.send(None)
+                            if suspended:
+                                log.append(["async-suspended", suspended.pop(), co.cr_frame.f_lasti])
+                    except StopIteration:
+                        pass
+            except Exception:
+                pass
+        sites = []
+        seen = set()
+        for kind, enter_lasti, pos in log:
+            k = by_off.get(enter_lasti)
+            if k is None:
+                continue
+            setup = [i for i in insns[k:k + 12] if i.opname in ("SETUP_WITH", "SETUP_ASYNC_WITH")]
+            if not setup:
+                continue
+            key = (kind, pos, setup[0].argval)
+            if key in seen:
+                continue
+            seen.add(key)
+            sites.append({"kind": kind, "pos": pos, "handler": setup[0].argval, "is_async": setup[0].opname == "SETUP_ASYNC_WITH"})
+        if sites:
+            res[name] = {"co_code": list(code.co_code), "consts_none": [c is None for c in code.co_consts], "sites": sorted(sites, key=lambda d_: (d_["pos"], d_["kind"]))}
+    return res
+
+out["exit_sites_observed"] = _exit_sites_observed()
+
+
+
 out["stdlib_module_names"] = sorted(getattr(sys, "stdlib_module_names", []))
 
 json.dump(out, sys.stdout)
